@@ -17,7 +17,8 @@ Lemma set_value_spec im k v e (Q : unit -> st -> Prop) (U : panic -> st -> Prop)
   Inv R ES (s_rt s) -> rt_find_pure (s_rt s) k = Some (im, e) ->
   (forall s', Inv R ES (s_rt s') -> rt_abs (s_rt s') = <[k := Elem k (ekid e) v]> (rt_abs (s_rt s)) ->
               shape (s_rt s') = shape (s_rt s) ->
-              rt_find_pure (s_rt s') k = Some (im, Elem k (ekid e) v) -> Q tt s') ->
+              rt_find_pure (s_rt s') k = Some (im, Elem k (ekid e) v) ->
+              (forall k', k' <> k -> rt_find_pure (s_rt s') k' = rt_find_pure (s_rt s) k') -> Q tt s') ->
   wp (set_value im k v) Q U s.
 Proof.
   intros HI Hf HQ. pose proof HI as (HR & Hok & Ho). unfold set_value. destruct im.
@@ -38,6 +39,7 @@ Proof.
     + unfold rt_abs. cbn [main lo hb_upd hel]. symmetry. apply insert_union_l.
     + reflexivity.
     + unfold rt_find_pure. cbn [main hb_upd hel]. rewrite lookup_insert. reflexivity.
+    + intros k' Hk'. unfold rt_find_pure. cbn [main lo hb_upd hel]. rewrite lookup_insert_ne by congruence. reflexivity.
   - apply rt_find_old in Hf as (Hnone & o & Hlo & Hl). wp_steps. rewrite Hlo, Hl. wp_steps.
     destruct (s_rt s) as [t lo0] eqn:Ert. cbn [main lo] in *. subst lo0.
     destruct Ho as (Hit & Hc & Hnd & Hdis & Hneed).
@@ -59,6 +61,8 @@ Proof.
       * rewrite replace_list_keys. exact Hnd.
       * unfold replace_list. apply elem_of_list_In, List.in_map_iff. exists e. split; [|apply elem_of_list_In; exact Hin].
         rewrite Hk, N.eqb_refl. reflexivity.
+    + intros k' Hk'. unfold rt_find_pure. cbn [main lo orem]. destruct (hel t !! k'); [reflexivity|].
+      f_equal. apply lookup_list_replace_ne. cbn [ek]. congruence.
 Qed.
 
 (* ------------------------------------------------------------------ insert *)
@@ -105,7 +109,7 @@ Proof.
   - (* overwrite *)
     cbn [option_map snd] in Hfa. apply wp_bind.
     apply (set_value_spec im k v e); [rewrite Hs1; exact HI|rewrite Hs1; exact Hf|].
-    intros s2 HI2 Habs2 Hsh2 Hf2. rewrite Hs1 in *.
+    intros s2 HI2 Habs2 Hsh2 Hf2 _. rewrite Hs1 in *.
     assert (Hfin : forall s3, Inv R ES (s_rt s3) -> rt_abs (s_rt s3) = rt_abs (s_rt s2) ->
                progress (s_rt s) (negb im) (s_rt s3) ->
                wp (bind (drop_key kid) (fun _ => ret (Some (ev e))))
@@ -186,9 +190,9 @@ Proof.
   - destruct g; cbn [get_out get_writes];
       try (apply wp_ret; split; [rewrite Hs1; exact HI|]; cbn; repeat split; rewrite ?Hs1; try reflexivity; eauto).
     + apply wp_bind. apply (set_value_spec im k wv e); [rewrite Hs1; exact HI|rewrite Hs1; exact Hf|].
-      intros s2 HI2 Habs2 _ _. apply wp_ret. split; [exact HI2|]. cbn. repeat split; try discriminate. rewrite Habs2, Hs1. reflexivity.
+      intros s2 HI2 Habs2 _ _ _. apply wp_ret. split; [exact HI2|]. cbn. repeat split; try discriminate. rewrite Habs2, Hs1. reflexivity.
     + apply wp_bind. apply (set_value_spec im k wv e); [rewrite Hs1; exact HI|rewrite Hs1; exact Hf|].
-      intros s2 HI2 Habs2 _ _. apply wp_ret. split; [exact HI2|]. cbn. repeat split; try discriminate. rewrite Habs2, Hs1. reflexivity.
+      intros s2 HI2 Habs2 _ _ _. apply wp_ret. split; [exact HI2|]. cbn. repeat split; try discriminate. rewrite Habs2, Hs1. reflexivity.
   - destruct g; cbn [get_out get_writes];
       try (apply wp_ret; split; [rewrite Hs1; exact HI|]; cbn; repeat split; rewrite ?Hs1; try reflexivity; try discriminate).
     apply wp_unwind. split; [exact Hs1|]. right. auto.
